@@ -99,19 +99,34 @@ def refcount_engine(ck, prop, tier, seed, work, ev, violations, known, knownhits
     threads_engine(ck, prop, tier, seed, work, ev, violations, known, knownhits)
 
 def threads_engine(ck, prop, tier, seed, work, ev, violations, known, knownhits):
-    """real threads: gate-scheduled interleavings (exact order) and free-running stress (order-insensitive clauses)"""
-    n = 4000 if tier == 'thorough' else 400
-    for mode in ('gate', 'stress'):
+    """real threads: (1) every schedule with at most PB preemptions of seven small owner/producer programs, forced onto
+    real threads by the gate scheduler (exact order); (2) seeded random gate schedules of random programs;
+    (3) free-running stress (C03 only: order-insensitive clauses)"""
+    n = 6000 if tier == 'thorough' else 600
+    pb = 3 if tier == 'thorough' else 2
+    for mode in ('exhaust', 'gate', 'stress'):
         if mode == 'stress' and prop != 'C03': continue
         trace = os.path.join(work, '%s.ndjson' % mode); scn = os.path.join(work, '%s.scn' % mode)
-        rc, out = ck.sh([ck.FBV, 'gate', mode, '--seed', str(seed), '--n', str(n if mode == 'gate' else max(20, n // 20)), '--out', trace, '--scn-out', scn], timeout=1500)
-        src = 'threads:%s' % mode
-        if rc != 0:
+        if mode == 'exhaust':
+            cmd = [ck.FBV, 'gate', 'exhaust', '--pb', str(pb), '--limit', '60000', '--out', trace, '--scn-out', scn]
+        else:
+            cmd = [ck.FBV, 'gate', mode, '--seed', str(seed), '--n', str(n if mode == 'gate' else max(40, n // 10)), '--out', trace, '--scn-out', scn]
+        t = time.time()
+        rc, out = ck.sh(cmd, timeout=2400)
+        src = 'threads:%s' % (mode if mode != 'exhaust' else 'exhaustive schedules, preemption bound %d' % pb)
+        if rc == 3:
+            st = {'runs': sum(1 for _ in open(scn))}
+            ev.setdefault('hung', []).append(src); ck.log('[%s] the crate HUNG in %s (partial trace validated)' % (prop, src))
+        elif rc != 0:
             if prop in ('C03',):
                 violations.append((prop, 'the harness process died with status %s under %s threads (memory unsafety)' % (rc, mode), {'id': src}, [out[-500:]], src))
                 continue
-            raise ck.ToolError('gate driver failed: ' + out[-300:])
-        st = json.loads(out.strip().splitlines()[-1])
+            raise ck.ToolError('gate driver failed (%s): %s' % (mode, out[-300:]))
+        else:
+            st = json.loads(out.strip().splitlines()[-1])
+        ck.log('[%s] %s: %d runs in %.0fs' % (prop, src, st['runs'], time.time() - t))
+        if mode == 'exhaust':
+            ev.setdefault('extra_cov', {})['exhaustive_schedules'] = st.get('schedules')
         if prop == 'C03':
             _validate_and_collect(ck, prop, src, trace, scn, work, ev, violations, known, knownhits, 'TraceRc.tla', 'TraceRc.cfg', runs=st['runs'])
         else:
